@@ -431,16 +431,26 @@ def _tebd_run(layout_name, pt, state, system, order, eps, restart_at=None):
         chain.add_nn_dissipation(nsites - 2, M.SM + 0.3j * M.SZ, M.SM.conj().T * (0.8 - 0.2j), 0.25)
     prm = oq.PtTebdParameters(dt=dt, order=order, epsrel=eps)
     sites = list(range(nsites)) + list(itertools.combinations(range(nsites), 2))
+    # trace-preserving, completely positive control operations that are neither unital nor symmetric as superoperators:
+    # a reset to |0><0| (pre-measurement) and an amplitude damping (post-measurement); norm and traces must stay one
+    cc = oq.ChainControl([2] * nsites)
+    reset = np.outer(np.array([1, 0, 0, 0], dtype=complex), np.array([1, 0, 0, 1], dtype=complex))
+    k0 = np.array([[1, 0], [0, np.sqrt(0.6)]], dtype=complex)
+    k1 = np.array([[0, np.sqrt(0.4)], [0, 0]], dtype=complex)
+    damp = np.kron(k0, k0.conj()) + np.kron(k1, k1.conj())
+    cc.add_single_site_control(reset, site=nsites - 1, step=2, post=False)
+    cc.add_single_site_control(damp, site=0, step=1, post=True)
+    cc.add_single_site_control(damp, site=nsites - 1, step=n - 1, post=False)
     tebd = oq.PtTebd(initial_augmented_mps=amps, system_chain=chain,
                      process_tensors=[pt if x else None for x in layout],
-                     parameters=prm, dynamics_sites=sites)
+                     parameters=prm, dynamics_sites=sites, chain_control=cc)
     if restart_at is None:
         return sites, tebd.compute(n, progress_type="silent")
     # checkpoint / restart: the chain state (a mixed state: explicit lambdas) exported at step k continues in a new object
     tebd.compute(restart_at, progress_type="silent")
     cont = oq.PtTebd(initial_augmented_mps=tebd.get_augmented_mps(), system_chain=chain,
                      process_tensors=[pt if x else None for x in layout], parameters=prm, dynamics_sites=sites,
-                     start_step=restart_at, start_time=restart_at * dt)
+                     start_step=restart_at, start_time=restart_at * dt, chain_control=cc)
     return sites, cont.compute(n, progress_type="silent")
 
 
